@@ -274,7 +274,8 @@ func (exec *Executor) execMethodBigInt(
 	case int64:
 		bigInt = val
 	case float64:
-		if val > math.MaxInt64 || val < math.MinInt64 || math.IsInf(val, 0) || math.IsNaN(val) {
+		// float64(math.MaxInt64) is 2^63, which does not fit in int64.
+		if val >= math.MaxInt64 || val < math.MinInt64 || math.IsInf(val, 0) || math.IsNaN(val) {
 			return exec.returnVerboseError(fmt.Errorf(
 				`%w: argument "%v" of jsonpath item method %v is invalid for type %v`,
 				ErrVerbose, val, node.Name(), "bigint",
